@@ -3,23 +3,37 @@ BND = "bounded stand-in only; not a proof. "
 
 CLAIMS = {
     "C01": dict(
-        category="other", engine="pyvc+rtc",
-        technique="contract-based deductive verification (WP/VC generation from the real Lexer source, z3) + run-time contracts on enumerated inputs + Earley oracle",
-        text="Lexical half proved: every Lexer method and index_to_loc verified against the functional lexical specification for all texts "
-             "(860+ obligations discharged by z3 on every run, counter-models replayed on the real code). Syntactic half bounded: parser verdict "
-             "== Earley verdict over the specification grammar on an enumerated derivation corpus and its single-token edits, 8 flag combinations, "
-             "str and bytes; error rendering exhaustive over (text, position) pairs to the bound; recursion depth probed as the one named case.",
+        category="other", engine="pyvc+llk+rtc",
+        technique="contract-based deductive verification: WP/VC generation from the real Lexer source discharged by z3 (Engine A) + per-method grammar "
+                  "extraction from the real Parser source with language-equality / prediction / progress obligations against the specification grammar "
+                  "(Engine B) + run-time contracts on enumerated inputs",
+        text="Lexical half proved: every Lexer method and index_to_loc verified against the functional lexical specification for all texts (860+ "
+             "obligations discharged by z3 on every run, counter-models replayed on the real code). Syntactic half: for each of the 64 Parser.parse_* "
+             "methods + the drivers parse_value / parse_type and each of the 4 flag valuations, the method's body (callees by their nonterminal) "
+             "denotes the same regular language as the specification's right-hand side (P1), no look-ahead the grammar allows is routed away from "
+             "the alternative that can take it (P2, FIRST_2/FOLLOW_2), no cycle without consumption (P3), callee look-ahead preconditions hold at "
+             "call sites (P0, P7), every raise site raises a syntax error positioned at a token of the text (P4): 900+ obligations; acceptance of "
+             "the whole parser then follows by the LL meta-theorem, which is trusted, not machine-checked. Bounded: parser verdict == Earley verdict "
+             "on an enumerated derivation corpus and its single-token edits, 8 flag combinations, str and bytes; token-stream primitives against the "
+             "abstract stream; error rendering exhaustive over (text, position) pairs to the bound; recursion depth probed as the one named case.",
         note="Trusted: spec/lexical.py and spec/grammar.py transcribe the June-2018 grammar (functional lexical spec validated against a regex "
-             "transcription on 500k+ strings); CPython str semantics as modelled by vf/pyvc; z3. Parser acceptance is bounded, not proved. "
-             "Known findings: error position len+1 at end of input inside an escape (pinned by tests), RecursionError on deep nesting."),
+             "transcription on 600k+ strings); CPython str semantics as modelled by vf/pyvc; z3; the LL(2) meta-theorem; the six token-stream "
+             "primitives of Parser behave as the abstract stream (bounded check only). Not level 'proof': the composition of the per-method "
+             "obligations into 'accepts exactly the grammar' is a trusted meta-theorem. Known findings: error position len+1 at end of input inside an "
+             "escape (pinned by tests), RecursionError on deep nesting."),
     "C02": dict(
-        category="other", engine="pyvc+rtc",
-        technique="contract-based deductive verification of token payloads (pyvc/z3) + run-time tree/span contracts on enumerated inputs",
+        category="other", engine="pyvc+llk+rtc",
+        technique="contract-based deductive verification of token payloads (pyvc/z3) + node-shape / span obligations on every node constructor call "
+                  "of the real Parser source (Engine B, P5) + run-time tree/span contracts on enumerated inputs",
         text="Token payloads (verbatim names and numbers, escape decoding, raw block text, token spans) are proved for all texts as part of the "
-             "Lexer contracts. parse_block_string == BlockStringValue and the tree-vs-source contracts (span = first token start .. last token end, "
-             "nesting, order, decoded leaves, spanned text reparses to an equal node, no_location) are checked on every node of every accepted "
-             "corpus text: bounded.",
-        note="Trusted: spec/blockstring.py (BlockStringValue transcription), spec/lexical.py; parser node shape is bounded only (Engine B P5 not built)."),
+             "Lexer contracts. For every `_ast.K(...)` call on every path of every parse method: K is a node kind the specification assigns to the "
+             "method's nonterminal, the keywords are parameters of the real class with every required one passed, every slot is fed and the "
+             "feeding values are produced in source order, `loc=self._loc(first token)` is evaluated after the last consumption, and Parser.__init__ "
+             "binds _loc to (start.start, last.end) / None under no_location (210+ obligations). Bounded: parse_block_string == BlockStringValue "
+             "and the tree-vs-source contracts (span, nesting, order, decoded leaves, spanned text reparses to an equal node, no_location) on every "
+             "node of every accepted corpus text.",
+        note="Trusted: spec/blockstring.py (BlockStringValue transcription), spec/lexical.py, contracts/parser_map.py (node kinds and slot order per "
+             "nonterminal). parse_block_string itself is bounded only."),
     "C03": dict(
         category="other", engine="rtc",
         technique="run-time contracts (round-trip, fix-point, determinism) on enumerated parser-produced trees; no deductive obligation within reach",
